@@ -28,7 +28,7 @@ import scipy.linalg
 from pyttb.gcp.handles import Objectives
 from pyttb.gcp.optimizers import LBFGSB
 
-from harness.lib import Family, Verdict, deep_eq, drive, jval
+from harness.lib import Family, Verdict, call, deep_eq, dense_j, drive, frac, jval, strip_exc
 
 TOL = 1e-8          # relative, model tensor and reported numbers
 TOL_SCALE = 1e-6    # cp_als whole-run scale (rounding is amplified by the condition of the sweeps)
@@ -57,9 +57,27 @@ RULE = ("paired runs of the real drivers on small planted low-rank problems (ord
         "and sparse), tucker_als (same), hosvd (sequential and not; automatic ranks at tol 3e-4..0.2 and given/mixed "
         "ranks on data with extra rank-one detail of relative size 1e-3..3e-2 so that the rank decision is sensitive): "
         "model tensor / c, fit, residual / c, chosen ranks and iteration counts against the unscaled run; not for "
-        "CP-APR / GCP (Poisson / GCP losses are not scale-equivariant; with a fixed guess gcp_opt is not either); all 6 mode relabellings for "
-        "N=3 of data, guess, ranks and dimorder for cp_als, tucker_als, hosvd (sequential and not) and gcp_opt "
-        "(cp_apr has a fixed mode order and is excluded). A mismatch above tolerance is a violation unless the same "
+        "CP-APR / GCP (Poisson / GCP losses are not scale-equivariant; with a fixed guess gcp_opt is not either); for tucker_als "
+        "also the factor matrices themselves (equal) and the core (times c), with its own perturbation control; all 6 mode "
+        "relabellings for N=3 and, for N=4, 3-cycles, 4-cycles (relabellings that differ from their inverse), an involution and "
+        "a random one, of data, guess, ranks (Tucker ranks that differ per mode), dimorder (not ascending) and — cp_als — optdims "
+        "(strict subsets in a shuffled order) and fixsigns on / off, for cp_als, tucker_als, hosvd (sequential and not) and gcp_opt "
+        "(cp_apr has a fixed mode order and is excluded); for cp_als additionally the returned factor LIST and weights against "
+        "the relabelling of the other run's (with fixsigns only in components with an even number / at most one negative mode, "
+        "established from a run without fixsigns; otherwise the recorded finding F18-fixsigns-relabel) and the reported "
+        "dimorder / optdims of both runs against the model of the option validation (c18_relabel_setup); for tucker_als the "
+        "factor list (relabelled) and the core (permuted) with their own perturbation control, for tucker_als / hosvd (given, "
+        "mixed and automatic ranks) the relabelled rank vector / dimorder against c18_relabel_args; relabel_cleanup: "
+        "ktensor.arrange / fixsigns on generated Kruskal models with integer column norms (N=2..4, rank 1..3, repeated / distinct "
+        "/ singleton extents, sign patterns all-negative / one / two / random negative dominant entries, zero columns, weights "
+        "that the sort has to reorder) and on their relabelling against the exact model c18_relabel_cleanup (1e-12 and equal sign "
+        "pattern) and against 'clean-up of the relabelled = relabelled clean-up'; relabel_setup: valid and malformed dimorder / "
+        "optdims (duplicates, out of range, too short, empty) for a problem and its relabelling against c18_relabel_setup; "
+        "relabel_ttm: permute, one mode product (plain and transposed) and the Gram matrix of an unfolding of an integer array and of "
+        "its relabelling (N=2..4, 3- and 4-cycles, repeated / distinct / singleton extents, wrong matrix sizes) exactly against "
+        "c18_relabel_ttm; scale_ttm: ttm(exclude_dims=n, transpose=True) and the Gram matrix of its unfolding for integer X and c X, c in "
+        "{2,3,1/2,3/4,1000}, ranks that differ per mode, wrong matrix sizes and modes out of range, exactly against c18_scale_ttm. "
+        "A mismatch above tolerance is a violation unless the same "
         "driver amplifies a 1e-13 / 1e-12 relative perturbation of the data (same representation) to within a factor 100 of "
         "it (tag illcond). non-trivial = both runs returned a model, the problem has more than one cell per mode and "
         "the two presentations really differ; distinct = distinct case hash")
@@ -82,6 +100,19 @@ ASSUMPTIONS = [
     "arithmetic, assuming both runs return, norm() != 0, the MTTKRP / innerprod interface laws (C02), the solver "
     "contract A.Y = B, and that every coefficient matrix of the unscaled run is zero or non-singular (automatic for "
     "rank 1); the paired runs check it on the implementation up to rounding",
+    "C18_relabel_cpals_run (whole-run mode relabelling of CP-ALS) is proved for the C09 model in exact arithmetic from: the "
+    "MTTKRP / innerprod interface laws (C02) for X and permute(X, p), mttkrp returning matrices of the documented size, the "
+    "same norm(), and the linear solver being a function of the system it is handed (the second run's solver answers the "
+    "request of mode k as the first run's answers that of mode p[k]); no solver contract and no regularity is needed. The "
+    "factor lists are relabellings of each other when fixsigns is off or every component has an even number / at most one "
+    "negative mode; otherwise only tensor, weights and reported numbers (C18_relabel_cpals_fixsigns_counterexample)",
+    "C18_scale_tucker_run (whole-run scaling of Tucker-ALS) is proved for the C10 model over the reals relative to a contract "
+    "of tensor.nvecs that does not mention scaling (whenever the Gram matrix has a matrix of leading eigenvectors in the "
+    "sense of Tk.LeadSpec — orthonormal, eigenvectors, decreasing eigenvalues, the rest dominated, flipsign convention — the "
+    "answer is one) and the hypothesis that every request of the unscaled run has exactly one admissible answer (distinct "
+    "leading eigenvalues; automatic for modes of extent one); that ARPACK / LAPACK meet the contract is not proved (C14 "
+    "checks it on recorded calls); C18_relabel_tucker_run uses the same contract and determinacy hypothesis, "
+    "C18_relabel_hosvd assumes nothing about scipy.linalg.eigh (it is handed the same matrix in both runs)",
 ]
 EXHAUSTIVE = {"quick": False, "thorough": False}
 TRUSTED_EXTRA = ["recording subclass of tensor/sptensor (attribute access seen from frames of pyttb driver files)"]
@@ -174,7 +205,8 @@ def quiet():
                 logging.disable(old_disable)
 
 
-def run_alg(alg, data, case, init=None, printitn=0, dimorder=None, ranks=None, seed=None, inner=0):
+def run_alg(alg, data, case, init=None, printitn=0, dimorder=None, ranks=None, seed=None, inner=0,
+            optdims=None, fixsigns=True):
     """Run one driver quietly.  -> {"full": ndarray, "nums": {...}, "ints": {...}, "out": str, "init": ...}
     or {"reject": True, "exc": name}."""
     try:
@@ -185,9 +217,14 @@ def run_alg(alg, data, case, init=None, printitn=0, dimorder=None, ranks=None, s
             if alg == "cp_als":
                 i0 = init if isinstance(init, str) else ttb.ktensor([a.copy() for a in init])
                 M, M0, o = ttb.cp_als(data, R, init=i0, printitn=printitn, maxiters=case.get("maxiters", 5),
-                                      stoptol=case.get("stoptol", 1e-4), dimorder=dimorder)
+                                      stoptol=case.get("stoptol", 1e-4), dimorder=dimorder, optdims=optdims,
+                                      fixsigns=fixsigns)
                 res = {"full": M.full().data, "nums": {"fit": o["fit"], "normresidual": o["normresidual"]},
-                       "ints": {"iters": o["iters"]}, "init": [f.copy() for f in M0.factor_matrices]}
+                       "ints": {"iters": o["iters"]}, "init": [f.copy() for f in M0.factor_matrices],
+                       "factors": [np.array(f, copy=True) for f in M.factor_matrices],
+                       "weights": np.array(M.weights, copy=True),
+                       "params": {"dimorder": [int(d) for d in np.ravel(o["params"]["dimorder"])],
+                                  "optdims": [int(d) for d in np.ravel(o["params"]["optdims"])]}}
             elif alg.startswith("cp_apr"):
                 i0 = init if isinstance(init, str) else ttb.ktensor([a.copy() for a in init])
                 M, M0, o = ttb.cp_apr(data, R, algorithm=alg.split("_")[2], init=i0, printitn=printitn,
@@ -203,7 +240,9 @@ def run_alg(alg, data, case, init=None, printitn=0, dimorder=None, ranks=None, s
                 M, U0, o = ttb.tucker_als(data, rk, init=i0, printitn=printitn, maxiters=case.get("maxiters", 4),
                                           stoptol=case.get("stoptol", 1e-4), dimorder=dimorder)
                 res = {"full": M.full().data, "nums": {"fit": o["fit"], "normresidual": o["normresidual"]},
-                       "ints": {"iters": o["iters"]}, "init": [None if u is None else np.array(u) for u in U0]}
+                       "ints": {"iters": o["iters"]}, "init": [None if u is None else np.array(u) for u in U0],
+                       "factors": [np.array(f, copy=True) for f in M.factor_matrices],
+                       "core": np.array(M.core.data, copy=True)}
             elif alg == "hosvd":
                 hr = ranks if ranks is not None else case.get("hranks")
                 M = ttb.hosvd(data, case.get("tol", 0.2), verbosity=printitn, dimorder=dimorder,
@@ -290,6 +329,20 @@ def sensitivity(alg, X, rep, case, **kw):
         if r.get("reject") or base.get("reject"):
             return float("inf")
         worst = max(worst, compare(base, r)[0])
+    return worst
+
+
+def factor_sensitivity(alg, X, rep, case, **kw):
+    """the same control for the factor matrices / the core of a Tucker run"""
+    base = run_alg(alg, as_data(X, rep), case, **kw)
+    worst = 0.0
+    for t in range(8):
+        rs = _rs(case["dseed"] + 1991 + t)
+        Xp = X * (1.0 + (1e-13 if t % 2 == 0 else 1e-12) * rs.standard_normal(X.shape))
+        r = run_alg(alg, as_data(Xp, rep), case, **kw)
+        if r.get("reject") or base.get("reject"):
+            return float("inf")
+        worst = max([worst] + [rel(A, B) for A, B in zip(base["factors"], r["factors"])] + [rel(base["core"], r["core"])])
     return worst
 
 
@@ -703,7 +756,8 @@ class Scale(Family):
                 "C18_scale_cpals_mode_update", "C18_scale_cpals_tensor", "C18_scale_cpals_pass",
                 "C18_scale_cpals_sweeps", "C18_scale_cpals_cleanup", "C18_scale_cpals_run",
                 "C18_scale_cpals_rank_one", "C18_scale_fit",
-                "C18_scale_hosvd", "C18_scale_hosvd_rank", "C18_scale_tucker_step")
+                "C18_scale_hosvd", "C18_scale_hosvd_rank", "C18_scale_tucker_step", "C18_scale_tucker_sweep",
+                "C18_scale_tucker_nvecs", "C18_scale_tucker_run", "C18_scale_tucker_run_ok")
 
     def gen(self, rng, tier):
         out = []
@@ -796,6 +850,16 @@ class Scale(Family):
                 continue
             out.append(judge(worst, what, tol, tags, f"{alg} data scaled by {at:g}",
                              lambda: sensitivity(alg, X, c["rep"], c, **kw), impl))
+            # Tucker-ALS (`C18_scale_tucker_run`): the SAME factor matrices, the core times c
+            if alg == "tucker_als" and out[-1].status == "ok" and "illcond" not in out[-1].tags:
+                fw, fat = 0.0, 1.0
+                for s, r in zip(SCALES, runs):
+                    w = max([rel(A, B) for A, B in zip(base["factors"], r["factors"])] + [rel(base["core"] * s, r["core"])])
+                    if w > fw:
+                        fw, fat = w, s
+                if fw > tol:
+                    out[-1] = judge(fw, "factor matrices / core", tol, tags, f"tucker_als data scaled by {fat:g}",
+                                    lambda: factor_sensitivity(alg, X, c["rep"], c, **kw), impl)
             # HOSVD's rank decision against the model, on the recorded eigenvalues (automatic modes only)
             if alg == "hosvd" and out[-1].status == "ok" and not tie:
                 hr = c.get("hranks") or [0] * len(c["shape"])
@@ -812,52 +876,156 @@ class Scale(Family):
         return out
 
 
+PERMS4 = [[1, 2, 0, 3], [0, 2, 3, 1], [2, 0, 1, 3],            # 3-cycles (not involutions)
+          [1, 2, 3, 0], [3, 0, 1, 2], [1, 3, 0, 2], [2, 3, 1, 0],  # 4-cycles
+          [1, 0, 3, 2], [0, 1, 3, 2], [3, 2, 1, 0]]                # involutions, for contrast
+
+
+def non_ascending(rng, n):
+    d = rng.sample(range(n), n)
+    while d == sorted(d):
+        d = rng.sample(range(n), n)
+    return d
+
+
+def neg_counts(factors):
+    """per component: the number of modes whose entry of largest magnitude is negative (what fixsigns looks at)."""
+    R = factors[0].shape[1]
+    return [sum(1 for F in factors if F[int(np.argmax(np.abs(F[:, r]))), r] < 0) for r in range(R)]
+
+
+def factor_mismatch(base, r, p):
+    """worst relative mismatch between the factor list of `r` and the relabelling of the factor list of `base`
+    (`r.factors[k]` against `base.factors[p[k]]`), the same after aligning the sign of every column, and the
+    components in which signs differ."""
+    worst, worst_abs, comps = 0.0, 0.0, set()
+    for k, pk in enumerate(p):
+        A, B = np.asarray(r["factors"][k]), np.asarray(base["factors"][pk])
+        if A.shape != B.shape:
+            return float("inf"), float("inf"), set()
+        worst = max(worst, rel(A, B))
+        for c in range(A.shape[1]):
+            d_same, d_flip = np.linalg.norm(A[:, c] - B[:, c]), np.linalg.norm(A[:, c] + B[:, c])
+            scale = max(np.linalg.norm(B[:, c]), 1e-300)
+            if d_flip < d_same:
+                comps.add(c)
+            worst_abs = max(worst_abs, min(d_same, d_flip) / scale)
+    worst = max(worst, rel(r["weights"], base["weights"]))
+    return worst, worst_abs, comps
+
+
 class Relabel(Family):
-    """relabelling the modes of data, guess (ranks) and mode order relabels the modes of the result."""
+    """relabelling the modes of data, guess (ranks), mode order and optimised modes relabels the modes of the result:
+    the model tensor and every reported number for all drivers; for cp_als also the factor LIST and the weights
+    (`C18_relabel_cpals_run`) and the reported `dimorder` / `optdims` against the model op `c18_relabel_setup`."""
     name = "relabel"
-    theorems = ("C18_relabel_step", "C18_relabel_sweep", "C18_relabel_als_query", "C18_relabel_mttkrp_spec")
+    theorems = ("C18_relabel_step", "C18_relabel_sweep", "C18_relabel_als_query", "C18_relabel_mttkrp_spec",
+                "C18_relabel_mttkrp_law", "C18_relabel_hosvd", "C18_relabel_tucker_run", "C18_relabel_cpals_mode_update", "C18_relabel_cpals_pass",
+                "C18_relabel_cpals_sweeps", "C18_relabel_cpals_run")
 
     def gen(self, rng, tier):
         out = []
-        reps = 4 if tier == "quick" else 14
+        reps = 3 if tier == "quick" else 12
+        reps4 = 2 if tier == "quick" else 5
         for alg in ("cp_als", "tucker_als", "hosvd", "gcp"):
             for k in range(reps):
                 c = base_case(rng, tier, alg, n=3)
-                c["dimorder"] = rng.sample(range(3), 3)
+                c["dimorder"] = non_ascending(rng, 3) if k % 3 else rng.sample(range(3), 3)
                 c["perms"] = [list(p) for p in itertools.permutations(range(3))]
                 if alg == "cp_als":
                     c["rep"] = "sparse" if k % 2 else "dense"
+                    c["fixsigns"] = k % 3 != 1
+                    if k % 3 == 2:          # a strict subset of the modes is optimised, listed in some order
+                        c["optdims"] = rng.sample(range(3), rng.choice([1, 2]))
+                if alg == "tucker_als":
+                    self.distinct_ranks(rng, c)
+                if alg == "hosvd" and k % 2:   # given / mixed ranks (0 = automatic for that mode), differing per mode
+                    c["hranks"] = [rng.choice([0, 1, 2, min(3, sh)]) for sh in c["shape"]]
                 out.append(c)
-            if tier == "thorough":
-                for _ in range(4):
-                    c = base_case(rng, tier, alg, n=4)
-                    c["dimorder"] = rng.sample(range(4), 4)
-                    c["perms"] = [rng.sample(range(4), 4) for _ in range(6)]
-                    out.append(c)
+            for k in range(reps4):
+                c = base_case(rng, tier, alg, n=4)
+                c["dimorder"] = non_ascending(rng, 4)
+                # non-involutive relabellings: 3-cycles and 4-cycles (p != p^-1, so a confusion of p with its inverse
+                # shows), an involution and a random one
+                c["perms"] = [rng.choice(PERMS4[:3]), rng.choice(PERMS4[3:7]), rng.choice(PERMS4[3:7]),
+                              rng.choice(PERMS4[7:]), rng.sample(range(4), 4)]
+                if alg == "cp_als":
+                    c["rep"] = "sparse" if k % 2 else "dense"
+                    c["fixsigns"] = k % 2 == 0
+                    if k % 2 == 1:
+                        c["optdims"] = rng.sample(range(4), rng.choice([1, 2, 3]))
+                    c["maxiters"] = 3
+                if alg == "tucker_als":
+                    self.distinct_ranks(rng, c)
+                if alg == "gcp":
+                    c["maxiters"] = 5
+                if alg == "hosvd" and k % 2:
+                    c["hranks"] = [rng.choice([0, 1, 2, min(3, sh)]) for sh in c["shape"]]
+                out.append(c)
         return out
 
+    @staticmethod
+    def distinct_ranks(rng, c):
+        """multilinear ranks that differ per mode (one mode of rank 1, the others of rank 2; planted rank 2): a
+        relabelling that forgets to relabel the ranks asks for an inadmissible / different problem"""
+        n = len(c["shape"])
+        rk = [2] * n
+        rk[rng.randrange(n)] = 1
+        c["ranks"] = rk
+
     def evaluate(self, cases):
-        out = []
+        out, reqs, slots, areqs, aslots = [], [], [], [], []
         for c in cases:
             alg = c["alg"]
             X, init = make_problem(c)
             rep = c.get("rep", "dense")
-            tags = [alg, rep, f"N{len(c['shape'])}"]
+            n = len(c["shape"])
+            tags = [alg, rep, f"N{n}"]
             ini = init_for(alg, c, init)
             dimorder = None if alg == "gcp" else c["dimorder"]
-            base = run_alg(alg, as_data(X, rep), c, init=ini, dimorder=dimorder)
+            kw = {}
+            if alg == "cp_als":
+                kw = {"optdims": c.get("optdims"), "fixsigns": c.get("fixsigns", True)}
+                tags.append("fixsigns" if kw["fixsigns"] else "no-fixsigns")
+                if kw["optdims"] is not None:
+                    tags.append(f"optdims{len(kw['optdims'])}of{n}")
+            if "ranks" in c and len(set(c["ranks"])) > 1:
+                tags.append("ranks-differ")
+            if dimorder is not None and dimorder != sorted(dimorder):
+                tags.append("dimorder-not-ascending")
+            base = run_alg(alg, as_data(X, rep), c, init=ini, dimorder=dimorder, **kw)
             if base.get("reject"):
                 out.append(Verdict("corr", f"{alg}: the base run raises {base.get('exc')}", {"base": brief(base)}, None, None, tags, False))
                 continue
+            # cp_als with fixsigns: the arranged model before fixsigns tells whether the choice of fixsigns is
+            # independent of the mode order (every component: an even number of negative modes, or at most one)
+            parity_bad = set()
+            if alg == "cp_als" and kw["fixsigns"]:
+                pre = run_alg(alg, as_data(X, rep), c, init=ini, dimorder=dimorder, optdims=kw["optdims"], fixsigns=False)
+                if not pre.get("reject"):
+                    parity_bad = {r for r, k in enumerate(neg_counts(pre["factors"])) if k % 2 == 1 and k > 1}
+                if parity_bad:
+                    tags.append("fixsigns-odd-component")
             worst, what, at, rejected = 0.0, "", None, None
+            fworst, fat, fsign = 0.0, None, None
+            tworst, tat = 0.0, None
+            rk_src = c.get("hranks") if alg == "hosvd" else c.get("ranks")
+            if alg == "hosvd":
+                tags.append("given-ranks" if rk_src else "auto-ranks")
             for p in c["perms"]:
                 inv = [int(x) for x in np.argsort(p)]
+                cyc = "id" if p == sorted(p) else ("involution" if [p[k] for k in p] == sorted(p) else "non-involution")
+                if cyc not in tags:
+                    tags.append(cyc)
                 Xp = np.transpose(X, p)
                 cp = dict(c)
                 cp["shape"] = [c["shape"][k] for k in p]
+                kwp = dict(kw)
+                if kw.get("optdims") is not None:
+                    kwp["optdims"] = [inv[d] for d in kw["optdims"]]
                 r = run_alg(alg, as_data(Xp, rep), cp, init=None if ini is None else [ini[k] for k in p],
                             dimorder=None if dimorder is None else [inv[d] for d in dimorder],
-                            ranks=[c["ranks"][k] for k in p] if "ranks" in c else None)
+                            ranks=None if rk_src is None else [rk_src[k] for k in p], **kwp)
                 if r.get("reject"):
                     rejected = (p, r)
                     break
@@ -868,13 +1036,473 @@ class Relabel(Family):
                 w, wh = compare(base, r)
                 if w > worst:
                     worst, what, at = w, wh, p
+                if alg in ("tucker_als", "hosvd"):
+                    # the arguments of the second run against the model (`gather ranks p`, `qmap p dimorder`)
+                    rk = rk_src
+                    areqs.append({"op": "c18_relabel_args", "ndims": n, "p": list(p),
+                                  "ranks": None if rk is None else list(rk), "dimorder": dimorder})
+                    aslots.append((len(out), p, None if rk is None else [rk[k] for k in p], [inv[d] for d in dimorder]))
+                if alg == "tucker_als":
+                    # `C18_relabel_tucker_run`: factor list relabelled, core permuted
+                    tw = max([rel(r["factors"][k], base["factors"][pk]) for k, pk in enumerate(p)]
+                             + [rel(np.transpose(r["core"], inv), base["core"])])
+                    if tw > tworst:
+                        tworst, tat = tw, p
+                if alg == "cp_als":
+                    fw, fabs, comps = factor_mismatch(base, r, p)
+                    if fw > fworst:
+                        fworst, fat, fsign = fw, p, (fabs, sorted(comps))
+                    # the reported dimorder / optdims of both runs against the model of the option validation
+                    reqs.append({"op": "c18_relabel_setup", "shape": list(c["shape"]), "rank": c["rank"], "p": list(p),
+                                 "dimorder": dimorder, "optdims": kw["optdims"]})
+                    slots.append((len(out), p, base["params"], r["params"]))
             impl = {"base": brief(base), "worst_perm": at, "worst": worst}
             if rejected:
                 out.append(Verdict("violation", f"{alg}: relabelling {rejected[0]} raises {rejected[1].get('exc')}",
                                    impl, None, None, tags))
                 continue
-            out.append(judge(worst, what, TOL, tags, f"{alg} modes relabelled by {at}",
-                             lambda: sensitivity(alg, X, rep, c, init=ini, dimorder=dimorder), impl))
+            v = judge(worst, what, TOL, tags, f"{alg} modes relabelled by {at}",
+                      lambda: sensitivity(alg, X, rep, c, init=ini, dimorder=dimorder, **kw), impl)
+            if alg == "cp_als" and v.status == "ok" and "illcond" not in v.tags and fworst > TOL:
+                fabs, comps = fsign
+                impl = dict(impl, factors_worst=fworst, factors_perm=fat, sign_aligned=fabs, sign_components=comps,
+                            odd_components=sorted(parity_bad))
+                if fabs <= TOL and kw["fixsigns"] and comps and set(comps) <= parity_bad:
+                    # the factor lists differ only by sign flips, in components with an odd number (>= 3) of negative
+                    # modes: fixsigns flips "the first" all-but-one of them, a choice that depends on the mode order
+                    v = Verdict("violation", f"fixsigns-relabel|cp_als modes relabelled by {fat}: the returned factor "
+                                f"lists differ by sign flips in components {comps} (odd number of negative modes); "
+                                "tensor, weights and fit agree", impl, None, None, tags)
+                else:
+                    v = Verdict("violation", f"cp_als modes relabelled by {fat}: the returned factor list / weights are "
+                                f"not the relabelling of the other run's ({fworst:.2e} > {TOL:g}; sign-aligned {fabs:.2e}; "
+                                f"components with sign differences {comps}, with an odd number of negative modes "
+                                f"{sorted(parity_bad)})", impl, None, None, tags)
+            if alg == "tucker_als" and v.status == "ok" and "illcond" not in v.tags and tworst > TOL:
+                v = judge(tworst, "factor list / core", TOL, tags, f"tucker_als modes relabelled by {tat}",
+                          lambda: factor_sensitivity(alg, X, rep, c, init=ini, dimorder=dimorder), impl)
+            out.append(v)
+        for (k, p, rk2, do2), m in zip(aslots, drive(areqs)):
+            if k < len(out) and out[k].status == "ok" and (m["ranks"] != rk2 or m["dimorder"] != do2):
+                out[k] = Verdict("violation", f"harness / model disagree on the relabelled arguments for {p}: ranks {rk2} vs "
+                                 f"{m['ranks']}, dimorder {do2} vs {m['dimorder']}", out[k].impl, m, None, out[k].tags)
+        for (k, p, pb, pr), m in zip(slots, drive(reqs)):
+            if k >= len(out) or out[k].status != "ok":
+                continue
+            bad = None
+            if m["base"].get("reject") or m["second"].get("reject"):
+                bad = f"the model of the option validation rejects what cp_als accepted (relabelling {p})"
+            elif m["second"] != m["expected"]:
+                bad = f"model: set-up of the relabelled problem {m['second']} is not the relabelled set-up {m['expected']}"
+            elif pb != {"dimorder": m["base"]["dimorder"], "optdims": m["base"]["optdims"]}:
+                bad = f"cp_als reports {pb}, the model {m['base']}"
+            elif pr != {"dimorder": m["second"]["dimorder"], "optdims": m["second"]["optdims"]}:
+                bad = f"cp_als on the problem relabelled by {p} reports {pr}, the model {m['second']}"
+            if bad:
+                out[k] = Verdict("violation", bad, out[k].impl, m, None, out[k].tags)
+        return out
+
+    def shrink(self, case):
+        if len(case.get("perms", [])) > 1:
+            for p in case["perms"]:
+                c = dict(case)
+                c["perms"] = [p]
+                yield c
+        if case.get("maxiters", 1) > 1:
+            c = dict(case)
+            c["maxiters"] = case["maxiters"] - 1
+            yield c
+
+
+# --- the clean-up of cp_als on a model and on its relabelling, exactly ---------------------------------------
+# integer vectors with integer 2-norms (so that `arrange` is exact in floating point up to one rounding per entry
+# and exact at Rat in the model)
+PYTH = {1: [[1], [2], [7]], 2: [[3, 4], [4, 3], [0, 5], [5, 12], [8, 6]],
+        3: [[1, 2, 2], [2, 3, 6], [2, 1, 2], [6, 2, 3], [0, 3, 4], [4, 4, 7], [1, 4, 8]],
+        4: [[1, 1, 1, 1], [2, 4, 5, 6], [1, 2, 2, 4], [0, 2, 3, 6], [2, 2, 2, 2], [1, 3, 3, 9]],
+        5: [[1, 1, 1, 2, 3], [0, 1, 2, 2, 4], [2, 2, 2, 2, 3], [1, 1, 3, 3, 4]]}
+
+
+def kt_model(case):
+    return {"weights": case["weights"], "factors": case["factors"]}
+
+
+def kt_impl(case, p=None):
+    fac = [np.array(F, dtype=float) for F in case["factors"]]
+    if p is not None:
+        fac = [fac[k] for k in p]
+    return ttb.ktensor(fac, np.array(case["weights"], dtype=float))
+
+
+def cleanup_impl(K, fix):
+    K.arrange()
+    if fix:
+        K = K.fixsigns()
+    return {"weights": np.array(K.weights), "factors": [np.array(F) for F in K.factor_matrices]}
+
+
+def kt_close(impl, model, tol=1e-12):
+    """entries within `tol` of the model's exact rationals, and exactly the same sign pattern"""
+    mw = np.array([float(frac(x)) for x in model["weights"]])
+    if impl["weights"].shape != mw.shape or not np.allclose(impl["weights"], mw, rtol=tol, atol=0):
+        return False
+    if len(impl["factors"]) != len(model["factors"]):
+        return False
+    for A, B in zip(impl["factors"], model["factors"]):
+        Bm = np.array([[float(frac(x)) for x in row] for row in B]).reshape(A.shape if len(B) else (0, A.shape[1]))
+        if A.shape != Bm.shape or not np.allclose(A, Bm, rtol=tol, atol=0) or not np.array_equal(np.sign(A), np.sign(Bm)):
+            return False
+    return True
+
+
+class RelabelCleanup(Family):
+    """`M.arrange()` / `M.fixsigns()` as cp_als applies them, on a Kruskal model and on its relabelling: the
+    implementation against the exact model (`c18_relabel_cleanup`), and both against what the property prescribes —
+    the clean-up of the relabelled model is the relabelling of the cleaned-up model (`C18_relabel_cpals_arrange`;
+    with fixsigns under the parity condition of `C18_relabel_cpals_fixsigns`)."""
+    name = "relabel_cleanup"
+    theorems = ("C18_relabel_cpals_arrange", "C18_relabel_cpals_fixsigns", "C18_relabel_cpals_fixsigns_counterexample",
+                "C18_relabel_cpals_run")
+
+    def gen(self, rng, tier):
+        out = []
+        reps = 40 if tier == "quick" else 260
+        for k in range(reps):
+            n = [2, 3, 3, 4, 3, 4][k % 6]
+            R = [1, 2, 3][k % 3]
+            if k % 5 == 0:
+                shape = [rng.choice([2, 3])] * n                         # repeated extents
+            elif k % 5 == 1:
+                shape = [1] + rng.sample([2, 3, 4, 5], n - 1)            # a singleton mode
+                rng.shuffle(shape)
+            else:
+                shape = rng.sample([1, 2, 3, 4, 5], n)                   # pairwise distinct
+            pattern = ["all-neg", "random", "random", "one-neg", "two-neg", "all-pos"][(k // 6) % 6]
+            factors = []
+            for m, s in enumerate(shape):
+                cols = []
+                for r in range(R):
+                    v = list(rng.choice(PYTH[s]))
+                    rng.shuffle(v)
+                    v = [x * rng.choice([-1, 1]) for x in v]             # mixed signs inside a column
+                    # the sign of the dominant entry decides what fixsigns sees
+                    dom = max(range(s), key=lambda i: (abs(v[i]), -i))
+                    want_neg = {"all-neg": True, "all-pos": False, "one-neg": m == (r % n),
+                                "two-neg": m in (r % n, (r + 1) % n), "random": rng.random() < 0.5}[pattern]
+                    if (v[dom] < 0) != want_neg:
+                        v = [-x for x in v]
+                    cols.append(v)
+                factors.append([[cols[r][i] for r in range(R)] for i in range(s)])
+            # weights: positive, such that the arranged weights (weight x product of the column norms) are distinct
+            # (numpy's argsort is not stable: no ties), in an order that the sort has to change
+            for _ in range(50):
+                weights = rng.sample(range(1, 12), R)
+                norms = [np.prod([np.linalg.norm(np.array(F, dtype=float)[:, r]) for F in factors]) for r in range(R)]
+                lam = [w * nr for w, nr in zip(weights, norms)]
+                if len({round(x, 6) for x in lam}) == R:
+                    break
+            if k % 11 == 10 and R > 1:
+                for F in factors:                                        # a zero column (norm 0: left alone)
+                    for row in F:
+                        row[R - 1] = 0
+            p = rng.sample(range(n), n)
+            if n == 4 and k % 2:
+                p = rng.choice(PERMS4[:7])
+            out.append({"weights": weights, "factors": factors, "p": p, "fixsigns": k % 4 != 3, "pattern": pattern})
+        return out
+
+    def evaluate(self, cases):
+        reqs = [{"op": "c18_relabel_cleanup", "K": kt_model(c), "p": c["p"], "fixsigns": c["fixsigns"]} for c in cases]
+        out = []
+        for c, m in zip(cases, drive(reqs)):
+            n, p, fix = len(c["factors"]), c["p"], c["fixsigns"]
+            tags = [f"N{n}", f"R{len(c['weights'])}", c["pattern"], "fixsigns" if fix else "arrange-only",
+                    "parity-ok" if m["parity"] else "parity-odd",
+                    "id" if p == sorted(p) else ("involution" if [p[k] for k in p] == sorted(p) else "non-involution")]
+            if len(set(len(F) for F in c["factors"])) < n:
+                tags.append("repeated-extent")
+            if any(len(F) == 1 for F in c["factors"]):
+                tags.append("singleton-mode")
+            a = cleanup_impl(kt_impl(c), fix)
+            b = cleanup_impl(kt_impl(c, p), fix)
+            impl = {"base": jval(a), "relabelled": jval(b)}
+            nontrivial = n > 1 and p != sorted(p)
+            if not m["exact"]:
+                out.append(Verdict("corr", "generator: a column norm is not rational", impl, m, None, tags, False))
+                continue
+            # the model's own specification
+            if (m["parity"] or not fix) and m["relabelled"] != m["expected"]:
+                out.append(Verdict("violation", "model: clean-up of the relabelled model is not the relabelled clean-up "
+                                   "although the parity condition holds", impl, m, None, tags))
+                continue
+            if not kt_close(a, m["base"]):
+                out.append(Verdict("violation", "arrange/fixsigns differ from the model on the given model", impl, m, None, tags))
+                continue
+            if not kt_close(b, m["relabelled"]):
+                out.append(Verdict("violation", "arrange/fixsigns differ from the model on the relabelled model", impl, m, None, tags))
+                continue
+            # the property: cleaned-up relabelled model = relabelled cleaned-up model
+            want = {"weights": a["weights"], "factors": [a["factors"][k] for k in p]}
+            same = (np.allclose(b["weights"], want["weights"], rtol=1e-12, atol=0)
+                    and all(A.shape == B.shape and np.allclose(A, B, rtol=1e-12, atol=0)
+                            for A, B in zip(b["factors"], want["factors"])))
+            if not same:
+                if fix and not m["parity"]:
+                    out.append(Verdict("violation", f"fixsigns-relabel|fixsigns of the model relabelled by {p} is not the "
+                                       f"relabelling of fixsigns of the model (negative modes per component {m['neg_counts']})",
+                                       impl, m, None, tags))
+                else:
+                    out.append(Verdict("violation", f"clean-up of the model relabelled by {p} is not the relabelling of the "
+                                       "clean-up of the model", impl, m, None, tags))
+                continue
+            out.append(Verdict("ok", "", impl, m, None, tags, nontrivial))
+        return out
+
+    def size(self, case):
+        return sum(len(F) for F in case["factors"]) * len(case["weights"])
+
+    def shrink(self, case):
+        R = len(case["weights"])
+        if R > 1:
+            for r in range(R):
+                c = dict(case)
+                c["weights"] = [w for i, w in enumerate(case["weights"]) if i != r]
+                c["factors"] = [[[x for i, x in enumerate(row) if i != r] for row in F] for F in case["factors"]]
+                yield c
+
+
+class RelabelSetup(Family):
+    """the option validation of cp_als (`dimorder`, `optdims`, reduced mode list) for a problem and its relabelling:
+    implementation against the model (`c18_relabel_setup`), valid and malformed requests."""
+    name = "relabel_setup"
+    theorems = ("C18_relabel_cpals_run",)
+
+    def gen(self, rng, tier):
+        out = []
+        reps = 30 if tier == "quick" else 150
+        for k in range(reps):
+            n = [2, 3, 4, 3, 4][k % 5]
+            shape = rng.sample(range(2, 7), n) if k % 4 else [rng.choice([2, 3])] * n
+            if k % 7 == 3:
+                shape[rng.randrange(n)] = 1
+            p = rng.sample(range(n), n)
+            if n == 4 and k % 2:
+                p = rng.choice(PERMS4[:7])
+            dimorder = None if k % 6 == 0 else non_ascending(rng, n)
+            optdims = None if k % 3 == 0 else rng.sample(range(n), rng.randint(1, n))
+            bad = None
+            if k % 9 == 4:
+                bad = rng.choice(["dim-dup", "dim-range", "dim-short", "opt-dup", "opt-range", "opt-empty"])
+                if bad == "dim-dup":
+                    dimorder = [0] * n
+                elif bad == "dim-range":
+                    dimorder = list(range(1, n + 1))
+                elif bad == "dim-short":
+                    dimorder = list(range(n - 1))
+                elif bad == "opt-dup":
+                    optdims = [0, 0]
+                elif bad == "opt-range":
+                    optdims = [0, n]
+                elif bad == "opt-empty":
+                    optdims = []
+            # (rank <= every extent: the run behind the validation must not fail in the solver)
+            out.append({"shape": shape, "rank": min(rng.choice([1, 2]), min(shape)), "p": p, "dimorder": dimorder, "optdims": optdims,
+                        "bad": bad, "dseed": rng.randrange(1 << 30)})
+        return out
+
+    @staticmethod
+    def run(shape, R, dimorder, optdims, seed):
+        rs = _rs(seed)
+        X = ttb.tensor(rs.randint(-3, 4, size=tuple(shape)).astype(float) + 0.5)
+        init = ttb.ktensor([rs.uniform(0.2, 1.0, (s, R)) for s in shape])
+        try:
+            with quiet():
+                _, _, o = ttb.cp_als(X, R, init=init, maxiters=1, printitn=0, dimorder=dimorder, optdims=optdims)
+            return {"dimorder": [int(d) for d in np.ravel(o["params"]["dimorder"])],
+                    "optdims": [int(d) for d in np.ravel(o["params"]["optdims"])]}
+        except Exception as e:  # noqa: BLE001
+            return {"reject": True, "exc": type(e).__name__}
+
+    def evaluate(self, cases):
+        reqs = [{"op": "c18_relabel_setup", "shape": c["shape"], "rank": c["rank"], "p": c["p"],
+                 "dimorder": c["dimorder"], "optdims": c["optdims"]} for c in cases]
+        out = []
+        for c, m in zip(cases, drive(reqs)):
+            n = len(c["shape"])
+            tags = [f"N{n}", "dimorder-default" if c["dimorder"] is None else "dimorder-given",
+                    "optdims-default" if c["optdims"] is None else f"optdims{len(c['optdims'])}of{n}",
+                    c["bad"] or "valid"]
+            a = self.run(c["shape"], c["rank"], c["dimorder"], c["optdims"], c["dseed"])
+            b = self.run(m["second_shape"], c["rank"], m["second_dimorder"], m["second_optdims"], c["dseed"])
+            impl = {"base": a, "second": b}
+
+            def strip(x):
+                return REJ if x.get("reject") else {"dimorder": x["dimorder"], "optdims": x["optdims"]}
+            REJ = {"reject": True}
+            bad = None
+            if m["second"] != m["expected"] and not m["base"].get("reject"):
+                bad = f"model: set-up of the relabelled problem {m['second']} is not the relabelled set-up {m['expected']}"
+            elif strip(a) != strip(m["base"]):
+                bad = f"cp_als option validation {strip(a)}, model {strip(m['base'])}"
+            elif not m["base"].get("reject") and strip(b) != strip(m["second"]):
+                bad = f"cp_als option validation of the relabelled request {strip(b)}, model {strip(m['second'])}"
+            if bad:
+                out.append(Verdict("violation", bad, impl, m, None, tags))
+            else:
+                out.append(Verdict("ok", "", impl, m, None, tags, not a.get("reject") and c["p"] != sorted(c["p"])))
+        return out
+
+
+class ScaleTtm(Family):
+    """Tucker-ALS's per-mode work on X and on c X: the projection on all factors but one (`ttm(..., exclude_dims=n,
+    transpose=True)`) scales by c, the Gram matrix of its mode-n unfolding by c^2 — implementation, model
+    (`c18_scale_ttm`) and the specification (`dscale`, `mscale`) agree exactly on integer data."""
+    name = "scale_ttm"
+    theorems = ("C18_scale_tucker_sweep", "C18_scale_tucker_nvecs", "C18_scale_tucker_nvecs_spec",
+                "C18_scale_tucker_run", "C18_scale_tucker_run_ok")
+
+    def gen(self, rng, tier):
+        out = []
+        reps = 40 if tier == "quick" else 220
+        for k in range(reps):
+            n = [2, 3, 3, 4][k % 4]
+            if k % 5 == 0:
+                shape = [rng.choice([2, 3])] * n
+            elif k % 5 == 1:
+                shape = [1] + rng.sample([2, 3, 4], n - 1)
+                rng.shuffle(shape)
+            else:
+                shape = rng.sample([1, 2, 3, 4, 5][: max(n, 4)], n) if n < 4 else rng.sample([1, 2, 3, 4], 4)
+            ranks = [rng.randint(1, s) for s in shape]                    # differ per mode
+            X = [rng.choice([-3, -2, -1, 0, 0, 1, 2, 3]) for _ in range(int(np.prod(shape)))]
+            U = [[[rng.choice([-2, -1, 0, 1, 2]) for _ in range(r)] for _ in range(s)] for s, r in zip(shape, ranks)]
+            bad = None
+            if k % 10 == 7:
+                bad = "wrong-rows"
+                m = rng.randrange(n)
+                U[m] = U[m] + [U[m][0]]
+            out.append({"shape": shape, "X": X, "U": U, "n": rng.randrange(n) if k % 13 else n,
+                        "c": rng.choice([2, 3, "1/2", 1000, "3/4"]), "bad": bad})
+        return out
+
+    def evaluate(self, cases):
+        reqs = [{"op": "c18_scale_ttm", "X": {"shape": c["shape"], "data": c["X"]}, "U": c["U"], "n": c["n"], "c": c["c"]}
+                for c in cases]
+        out = []
+        for c, m in zip(cases, drive(reqs)):
+            shape, n = c["shape"], c["n"]
+            cf = float(Fraction(str(c["c"])))
+            tags = [f"N{len(shape)}", f"c={c['c']}", c["bad"] or ("mode-out-of-range" if n >= len(shape) else "valid")]
+            if len(set(shape)) < len(shape):
+                tags.append("repeated-extent")
+            if 1 in shape:
+                tags.append("singleton-mode")
+            X = np.array(c["X"], dtype=float).reshape(shape, order="F")
+            U = [np.array(u, dtype=float).reshape(len(u), len(u[0]) if u else 0) for u in c["U"]]
+
+            def proj(T):
+                Y = ttb.tensor(T.copy()).ttm([u.copy() for u in U], exclude_dims=n, transpose=True)
+                Yn = Y.to_tenmat(np.array([n])).double()
+                return {"ttm": dense_j(Y), "gram": jval(Yn @ Yn.T)}
+            a, b = call(proj, X), call(proj, cf * X)
+            impl = {"X": strip_exc(a), "cX": strip_exc(b)}
+            bad = None
+            if m["ttm"].get("reject"):
+                if not (a.get("reject") and b.get("reject")):
+                    bad = "the model rejects, the implementation does not"
+            elif a.get("reject") or b.get("reject"):
+                bad = f"the implementation raises {a.get('exc') or b.get('exc')}, the model does not"
+            else:
+                g = m["grams"]
+                if m["ttm_scaled"] != m["ttm_expected"] or g["gram_scaled"] != g["gram_expected"]:
+                    bad = "model: the projection / Gram matrix of c X is not c / c^2 times that of X"
+                elif not deep_eq(a["ok"]["ttm"], m["ttm"]["ok"]) or not deep_eq(a["ok"]["gram"], g["gram"]):
+                    bad = "ttm(exclude_dims, transpose) / Gram matrix of X differ from the model"
+                elif not deep_eq(b["ok"]["ttm"], m["ttm_scaled"]["ok"]) or not deep_eq(b["ok"]["gram"], g["gram_scaled"]):
+                    bad = "ttm(exclude_dims, transpose) / Gram matrix of c X differ from the model"
+            if bad:
+                out.append(Verdict("violation", bad, impl, m, None, tags))
+            else:
+                out.append(Verdict("ok", "", impl, m, None, tags, not m["ttm"].get("reject") and any(x != 0 for x in c["X"])))
+        return out
+
+
+class RelabelTtm(Family):
+    """what HOSVD / Tucker-ALS do per mode, on an array and on its relabelling: `permute`, one mode product
+    (`ttm`, plain and transposed) and the Gram matrix of an unfolding — implementation, model (`c18_relabel_ttm`) and
+    the specification (`C18_relabel_hosvd_step`: mode k of the relabelled array is mode p[k] of the array) agree exactly."""
+    name = "relabel_ttm"
+    theorems = ("C18_relabel_hosvd_step", "C18_relabel_hosvd")
+
+    def gen(self, rng, tier):
+        out = []
+        reps = 40 if tier == "quick" else 220
+        for i in range(reps):
+            n = [2, 3, 3, 4][i % 4]
+            if i % 5 == 0:
+                shape = [rng.choice([2, 3])] * n
+            elif i % 5 == 1:
+                shape = [1] + rng.sample([2, 3, 4], n - 1)
+                rng.shuffle(shape)
+            else:
+                shape = rng.sample([1, 2, 3, 4, 5], n) if n < 4 else rng.sample([1, 2, 3, 4], 4)
+            p = rng.sample(range(n), n)
+            if n == 4 and i % 2:
+                p = rng.choice(PERMS4[:7])
+            k = rng.randrange(n)
+            tr = i % 3 == 0
+            ext = shape[p[k]]
+            r = rng.randint(1, 3)
+            U = ([[rng.choice([-2, -1, 0, 1, 2]) for _ in range(r)] for _ in range(ext)] if tr else
+                 [[rng.choice([-2, -1, 0, 1, 2]) for _ in range(ext)] for _ in range(r)])
+            bad = None
+            if i % 10 == 7:
+                bad = "wrong-size"
+                U = [row + [1] for row in U] if not tr else U + [U[0]]
+            X = [rng.choice([-3, -2, -1, 0, 0, 1, 2, 3]) for _ in range(int(np.prod(shape)))]
+            out.append({"shape": shape, "X": X, "p": p, "k": k, "U": U, "transpose": tr, "bad": bad})
+        return out
+
+    def evaluate(self, cases):
+        reqs = [{"op": "c18_relabel_ttm", "X": {"shape": c["shape"], "data": c["X"]}, "p": c["p"], "U": c["U"],
+                 "k": c["k"], "transpose": c["transpose"]} for c in cases]
+        out = []
+        for c, m in zip(cases, drive(reqs)):
+            shape, p, k, tr = c["shape"], c["p"], c["k"], c["transpose"]
+            tags = [f"N{len(shape)}", "transpose" if tr else "plain", c["bad"] or "valid",
+                    "id" if p == sorted(p) else ("involution" if [p[i] for i in p] == sorted(p) else "non-involution")]
+            if len(set(shape)) < len(shape):
+                tags.append("repeated-extent")
+            if 1 in shape:
+                tags.append("singleton-mode")
+            X = np.array(c["X"], dtype=float).reshape(shape, order="F")
+            U = np.array(c["U"], dtype=float)
+
+            def gram(T, mode):
+                M = T.to_tenmat(np.array([mode])).double()
+                return jval(M @ M.T)
+            T = ttb.tensor(X.copy())
+            Tp = T.permute(np.array(p))
+            a = call(lambda: dense_j(Tp.ttm(U.copy(), k, transpose=tr)))
+            b = call(lambda: dense_j(T.ttm(U.copy(), p[k], transpose=tr).permute(np.array(p))))
+            impl = {"permuted": dense_j(Tp), "ttm_perm": strip_exc(a), "ttm_then_perm": strip_exc(b)}
+            bad = None
+            if not deep_eq(dense_j(Tp), m["permuted"]):
+                bad = "permute differs from the model"
+            elif m["ttm_perm"] != m["ttm_expected"]:
+                bad = "model: the product in mode k of the relabelled array is not the relabelled product in mode p[k]"
+            elif m["gram_perm"] != m["gram"]:
+                bad = "model: the Gram matrices of the two unfoldings differ"
+            elif bool(a.get("reject")) != bool(m["ttm_perm"].get("reject")) or bool(b.get("reject")) != bool(m["ttm_perm"].get("reject")):
+                bad = "ttm accepts / rejects differently from the model"
+            elif not a.get("reject") and not (deep_eq(a["ok"], m["ttm_perm"]["ok"]) and deep_eq(b["ok"], m["ttm_perm"]["ok"])):
+                bad = "ttm of the relabelled array / relabelled ttm differ from the model"
+            elif not (deep_eq(gram(Tp, k), m["gram_perm"]) and deep_eq(gram(T, p[k]), m["gram"])):
+                bad = "the Gram matrix of the unfolding differs from the model"
+            if bad:
+                out.append(Verdict("violation", bad, impl, m, None, tags))
+            else:
+                out.append(Verdict("ok", "", impl, m, None, tags, p != sorted(p) and any(x != 0 for x in c["X"])))
         return out
 
 
@@ -1265,4 +1893,5 @@ class Dtype(Family):
 
 
 def families():
-    return [Repr(), Print(), Seed(), Scale(), Relabel(), Iface(), AprObserve(), MuFixup(), Dtype()]
+    return [Repr(), Print(), Seed(), Scale(), Relabel(), RelabelCleanup(), RelabelSetup(), RelabelTtm(), ScaleTtm(), Iface(), AprObserve(),
+            MuFixup(), Dtype()]
